@@ -184,6 +184,8 @@ def run_lines(cmd, lines, shards=None, timeout=1200, env=None):
     in order.  One output line per input line is required."""
     if not lines:
         return []
+    if any(not l.strip() or "\n" in l for l in lines):
+        raise ValueError("run_lines: a case line is blank or contains a newline (would misalign results)")
     shards = shards or min(NPROC, max(1, len(lines) // 4))
     chunks = [lines[i::shards] for i in range(shards)]
 
@@ -230,7 +232,7 @@ def load_known():
 class Ctx:
     def __init__(self, prop, tier, seed):
         self.prop, self.tier, self.seed = prop, tier, seed
-        self.rng = random.Random(seed * 1000003 + int(prop[1:]))
+        self.rng = random.Random(seed * 1000003 + int(hashlib.sha1(prop.encode()).hexdigest()[:6], 16))
         self.violations = []       # (replay_path, note, no_input)
         self.known_hits = []
         self.coverage = {}
